@@ -7,7 +7,7 @@ from .c19 import strip_inst
 def spec(tier, seed):
     q = tier == "quick"
     inst = []
-    for (L, st, ow) in ([(3, 1, True), (3, 2, False), (3, 0, False)] if q else [(L, st, ow) for L in (3, 4, 5) for st in (0, 1, 2, 3) for ow in (False, True)]):
+    for (L, st, ow) in ([(3, 1, True), (3, 2, False), (3, 0, False)] if q else [(L, st, ow) for L in (3, 4) for st in (0, 1, 2, 3) for ow in (False, True)]):
         inst.append(strip_inst("c16", L, st, ow, "C16 strip drops exactly N leading components of both names"))
     return {
         "instances": inst,
@@ -18,11 +18,11 @@ def spec(tier, seed):
                     {"name": "apply_one_file_patch: direction follows the series entry's -R", "function": "apply_one_file_patch", "target": "bin",
                      "run": lambda f, v, w: _mir.vc_direction_from_series(f, v, w)}],
         "level": "model_checking",
-        "functions": ["FilePatch::strip", "common::choose_filename_to_patch (MIR)", "AppliedState::apply_one_file_patch (MIR)"],
+        "functions": ["FilePatch::strip", "cmd::read_series_file closures (MIR)", "common::choose_filename_to_patch (MIR)", "AppliedState::apply_one_file_patch (MIR)"],
         "symbolic": "file-name bytes over {a, ., /}; MIR: presence of either name, the in-memory entry (absent / deleted / present) and the result of exists()",
-        "bounds": {"name_bytes": "<= 6", "strip": "0..3", "loop_unrolling": mirvc.UNROLL},
-        "assumptions": ["series-line parsing (getopts on BufReader lines) is FFI/IO: outside", "MIR VCs: callees havoc'd except the model table"],
-        "outside": ["read_series_file", "which path changed on disk"],
+        "bounds": {"name_bytes": "3 (quick), <= 4 (thorough)", "strip": "0..3", "loop_unrolling": mirvc.UNROLL},
+        "assumptions": ["MIR VCs: callees havoc'd except the model table (getopts' opt_str / opt_present return arbitrary values; Option::unwrap_or and the named constant are modelled)"],
+        "outside": ["getopts' own parsing of the option words and the splitting of series lines", "which path changed on disk (scenario replays only)"],
         "explanation": "strip removes exactly N leading components from both names (reference: split on '/', runs of slashes once, '.' dropped except leading); "
                        "the file to patch is the old name iff it exists in memory (not deleted) or, when not loaded, on disk; otherwise the new name; the apply direction is Revert iff the series entry says -R",
     }
